@@ -70,6 +70,31 @@ def no_memo(chk, repo):
                           or "").split(".")[-1]
                     if nm in MEMO:
                         bad.append((f, f"{ci.qualname}.{name} is @{nm}"))
+    # ... nor kept by hand: an array-map descriptor is shared by every
+    # instance of its class and by every layout run, so nothing it learns
+    # from one access may be kept in it (or in a cache keyed by instance)
+    for ci in repo.subclasses("ebpfcat.arraymap.ArrayGlobalVarDesc"):
+        if ci.module.name.endswith("_test"):
+            continue
+        for name, f in ci.methods.items():
+            if not isinstance(f, FUNC) or name in ("__init__",
+                                                   "__set_name__"):
+                continue
+            for x in walk_no_nested(f):
+                t = None
+                if isinstance(x, ast.Attribute) and isinstance(
+                        x.ctx, (ast.Store, ast.Del)):
+                    t = x
+                elif isinstance(x, ast.Subscript) and isinstance(
+                        x.ctx, (ast.Store, ast.Del)):
+                    t = x.value
+                root = t
+                while isinstance(root, (ast.Attribute, ast.Subscript)):
+                    root = root.value
+                if t is not None and isinstance(root, ast.Name) and \
+                        root.id == "self":
+                    bad.append((x, f"{ci.qualname}.{name} stores into "
+                                   f"`{unparse(x)[:40]}`"))
     chk.floor("R29.6", "descriptor methods looked at", n, 10)
     chk.ob("R29.6", "ebpfcat.arraymap.ArrayGlobalVarDesc", "no descriptor "
            "method is memoised", not bad, bad[0][0] if bad else None,
